@@ -58,6 +58,7 @@ type FuncContract struct {
 	CallAsserts map[string][]*Clause // "callee#k" -> assertions checked right before that call site
 	Defines    []*LocalDef
 	CapturedRequires []*Clause // closures: facts about captured state, proved where the closure is created and assumed at its entry (stability until the call is an assumption)
+	readsState, readsStateKnown bool
 	EntryAssumes []*Clause // facts that define thread-local ghost state of the goroutine running this function (assumed at entry, never asserted at spawn)
 }
 
@@ -122,6 +123,12 @@ type GhostField struct {
 	SortText string
 }
 
+type RelyDecl struct {
+	Pkg    string
+	Env    string
+	Callee *regexp.Regexp
+}
+
 type SpecSet struct {
 	Sorts      map[string]bool
 	Fns        []*SpecFn
@@ -131,6 +138,7 @@ type SpecSet struct {
 	GhostVars  []EVar
 	Externs    []*FuncContract
 	PkgFrames  map[string]bool // package paths declared effect-free on modelled state
+	Relies     []RelyDecl      // interference: inside functions of Pkg, the contract Env is applied before every call whose callee key matches Callee
 	FuncTypes  map[string]*FuncContract
 	Guards     []GuardDecl
 	LockInvs   []LockInv
@@ -224,7 +232,7 @@ func readContractLines(path string, requirePrefix bool) ([]rawLine, string, erro
 
 var clauseKeywords = map[string]bool{"requires": true, "ensures": true, "invariant": true, "modifies": true, "pure": true,
 	"trusted": true, "may_panic": true, "loop": true, "func": true, "extern": true, "functype": true, "lemma": true,
-	"sort": true, "fn": true, "axiom": true, "ghost": true, "pkgframe": true, "guarded": true, "lockinv": true,
+	"sort": true, "fn": true, "axiom": true, "ghost": true, "pkgframe": true, "rely": true, "guarded": true, "lockinv": true,
 	"acquires": true, "releases": true, "opaque": true, "reveal": true, "uses": true, "allocates": true, "noaxioms": true, "ghostset": true, "before_call": true, "macro": true, "define": true, "theorem": true, "entry_assume": true, "captured_requires": true, "crashinv": true, "note": true, "recfn": true, "props": true}
 
 func firstWord(s string) (string, string) {
@@ -537,6 +545,17 @@ func parseDirectives(lines []rawLine, pkgPath string, spec *SpecSet, contracts m
 			}
 		case "pkgframe":
 			spec.PkgFrames[strings.TrimSpace(d.rest)] = true
+		case "rely":
+			// rely <package path> <contract key of the environment step> <regexp over callee keys>
+			parts := strings.Fields(d.rest)
+			if len(parts) != 3 {
+				return fmt.Errorf("%s:%d: rely <pkg> <env contract> <callee regexp>", d.file, d.line)
+			}
+			re, err := regexp.Compile(parts[2])
+			if err != nil {
+				return fmt.Errorf("%s:%d: %v", d.file, d.line, err)
+			}
+			spec.Relies = append(spec.Relies, RelyDecl{Pkg: parts[0], Env: parts[1], Callee: re})
 		case "guarded":
 			// guarded pkg.Type: f1, f2 by mutexField
 			i := strings.Index(d.rest, ":")
